@@ -747,7 +747,7 @@ class Fxp():
         val = np.array(val)
 
         # a list of python integers beyond 64 bits is turned into floats by numpy: keep the integers exact
-        if isinstance(_val_in, (list, tuple)) and val.dtype.kind == 'f' and val.size > 0 and np.max(np.abs(val)) >= 2**63:
+        if isinstance(_val_in, (int, list, tuple)) and val.dtype.kind in 'fu' and val.size > 0 and np.max(np.abs(val)) >= 2**63:
             _val_obj = np.array(_val_in, dtype=object)
             if all(isinstance(v, int) for v in _val_obj.flatten()):
                 val = _val_obj
@@ -859,7 +859,14 @@ class Fxp():
         if original_vdtype != complex and not np.issubdtype(original_vdtype, np.complexfloating):
             # val_dtype determination
             _n_word_max_ = min(_n_word_max, 64)
-            if np.max(val) >= 2**_n_word_max_ or np.min(val) < -2**_n_word_max_ or self.n_word >= _n_word_max_:
+
+            # integer inputs are scaled exactly: python integers are used when the scaled values do not fit in 64 bits
+            if val.dtype.kind in 'iu' and isinstance(conv_factor, int) and conv_factor > 1:
+                _scaled_overflow = int(np.max(val)) * conv_factor >= 2**63 or int(np.min(val)) * conv_factor < -2**63
+            else:
+                _scaled_overflow = False
+
+            if val.dtype == object or _scaled_overflow or np.max(val) >= 2**_n_word_max_ or np.min(val) < -2**_n_word_max_ or self.n_word >= _n_word_max_:
                 val_dtype = object
                 val = val.astype(object)
             else:
@@ -876,6 +883,10 @@ class Fxp():
             if val_dtype == object:       
                 # convert each element to int
                 new_val = np.array(list(map(int, new_val.flatten())), dtype=val_dtype).reshape(new_val.shape)
+
+                if self.n_word < _n_word_max_:
+                    # after the overflow action the values fit the usual integer type again
+                    new_val = new_val.astype(np.int64 if self.signed else np.uint64)
             
             if index is not None:
                 self.val[index] = new_val
